@@ -1,6 +1,6 @@
 (* C29: the finite sweep of rotation counts 0..1100 on the instrumented model (a cross-check of
-   the general theorems rotate_sem / rotate_oob by plain evaluation): exactly the counts above
-   1024 index outside the name vector.  Kept in its own file: it evaluates 2 x 1101 rotations
+   the general theorems rotate_sem / rotate_orig_oob by plain evaluation): no count indexes
+   outside the name vector; before the repair exactly the counts above 1024 did.  Kept in its own file: it evaluates 3 x 1101 rotations
    (a few seconds with the VM; about a minute under coqchk).  The sweep lemmas are stated with
    the forallb spelled out so that the kernel never has to unfold a definition around the big
    computation. *)
@@ -24,28 +24,39 @@ Lemma in_counts_1101 : forall r, r <= 1100 -> In r (counts 1101).
 Proof. intros r H. apply in_counts. lia. Qed.
 
 Lemma sweep_log_1101 :
-  forallb (fun r => Bool.eqb (is_oob (rotate ["l"; "o"; "g"] r false false false [])) (cap <? r))
-          (counts 1101) = true.
+  forallb (fun r => negb (is_oob (rotate ["l"; "o"; "g"] r false false false []))) (counts 1101) = true.
 Proof. vm_cast_no_check (eq_refl true). Qed.
 
 Lemma sweep_store_1101 :
-  forallb (fun r => Bool.eqb (is_oob (initialise ["d"; "b"] r true [])) (cap <? r))
+  forallb (fun r => negb (is_oob (initialise ["d"; "b"] r true []))) (counts 1101) = true.
+Proof. vm_cast_no_check (eq_refl true). Qed.
+
+(* the routine before the repair a64fc7d: exactly the counts above the cap are out of bounds *)
+Lemma sweep_log_orig_1101 :
+  forallb (fun r => Bool.eqb (is_oob (rotate_orig ["l"; "o"; "g"] r false false false [])) (cap <? r))
           (counts 1101) = true.
 Proof. vm_cast_no_check (eq_refl true). Qed.
 
 Lemma is_oob_iff : forall r, is_oob r = true <-> r = OOB.
 Proof. intros [d| |]; cbn; split; intros H; congruence. Qed.
 
-Lemma oob_sweep_log_lemma : forall r, r <= 1100 ->
-  (rotate ["l"; "o"; "g"] r false false false [] = OOB <-> 1024 < r).
+Lemma sweep_log_lemma : forall r, r <= 1100 ->
+  rotate ["l"; "o"; "g"] r false false false [] <> OOB.
 Proof.
-  intros r Hr. pose proof (proj1 (forallb_forall _ _) sweep_log_1101 r (in_counts_1101 r Hr)) as H.
-  cbv beta in H. apply Bool.eqb_prop in H. rewrite <- is_oob_iff, H. unfold cap. apply N.ltb_lt.
+  intros r Hr E. pose proof (proj1 (forallb_forall _ _) sweep_log_1101 r (in_counts_1101 r Hr)) as H.
+  cbv beta in H. apply is_oob_iff in E. rewrite E in H. discriminate H.
 Qed.
 
-Lemma oob_sweep_store_lemma : forall r, r <= 1100 ->
-  (initialise ["d"; "b"] r true [] = OOB <-> 1024 < r).
+Lemma sweep_store_lemma : forall r, r <= 1100 ->
+  initialise ["d"; "b"] r true [] <> OOB.
 Proof.
-  intros r Hr. pose proof (proj1 (forallb_forall _ _) sweep_store_1101 r (in_counts_1101 r Hr)) as H.
+  intros r Hr E. pose proof (proj1 (forallb_forall _ _) sweep_store_1101 r (in_counts_1101 r Hr)) as H.
+  cbv beta in H. apply is_oob_iff in E. rewrite E in H. discriminate H.
+Qed.
+
+Lemma sweep_log_orig_lemma : forall r, r <= 1100 ->
+  (rotate_orig ["l"; "o"; "g"] r false false false [] = OOB <-> 1024 < r).
+Proof.
+  intros r Hr. pose proof (proj1 (forallb_forall _ _) sweep_log_orig_1101 r (in_counts_1101 r Hr)) as H.
   cbv beta in H. apply Bool.eqb_prop in H. rewrite <- is_oob_iff, H. unfold cap. apply N.ltb_lt.
 Qed.
